@@ -397,11 +397,27 @@ path "*" { capabilities = ["read", "update", "list"] }`
 			if rerr != nil {
 				t.Fatalf("harness: namespace root token: %v", rerr)
 			}
+			// further credentials of ns1/: tokens whose policy NAMES try to reach a policy of
+			// another namespace (ns3/ and the root namespace each hold an all-powerful policy
+			// "adm3", written - hence cached - just before)
+			admHCL := `path "*" { capabilities = ["create","read","update","delete","list","sudo"] }`
+			ns3 := s.nsByPath(t, "ns3/")
+			s.Must(s.ReqNS(ns3, s.Root, logical.UpdateOperation, "sys/policies/acl/adm3", map[string]interface{}{"policy": admHCL}))
+			s.Must(s.Req(s.Root, logical.UpdateOperation, "sys/policies/acl/adm3", map[string]interface{}{"policy": admHCL}))
+			creds := []string{nsTok, nsRoot}
+			for _, pn := range []string{"../" + ns3.UUID + "/adm3", "../" + namespace.RootNamespaceUUID + "/adm3", "./../" + ns3.UUID + "/adm3", "x/../../" + ns3.UUID + "/adm3", "ns3/adm3", "../adm3", "/adm3"} {
+				r, e := s.ReqNS(ns1, s.Root, logical.UpdateOperation, "auth/token/create", map[string]interface{}{"policies": []string{pn}, "ttl": "1h", "no_default_policy": true})
+				if OK(r, e) && r != nil && r.Auth != nil {
+					creds = append(creds, r.Auth.ClientToken)
+					// warm the policy cache the way a first request would
+					_, _ = s.ReqNS(ns3, s.Root, logical.ReadOperation, "sys/policies/acl/adm3", nil)
+				}
+			}
 			for _, target := range []string{"", "ns1/", "ns1/ns2/", "ns3/", "ns1x/", "ns1-b/", "ns11/"} {
 				tns := s.nsByPath(t, target)
 				for _, path := range []string{"m/prog", "m/kv/x", "sys/mounts", "auth/token/lookup-self", "x/y/prog"} {
 					for _, op := range []logical.Operation{logical.ReadOperation, logical.UpdateOperation} {
-					for ci, nsTok := range []string{nsTok, nsRoot} {
+					for ci, nsTok := range creds {
 						count++
 						s.Rec.Reset()
 						r, e := s.ReqNS(tns, nsTok, op, path, map[string]interface{}{"ops": []interface{}{}, "value": "v"})
